@@ -124,12 +124,24 @@ def _alarm(signum, frame):
     raise CaseTimeout()
 
 
+def _roomy(f):
+    return f()
+
+
+# CPython 3.12 keeps Python frames in 16 KiB chunks of a per-thread data stack and mmaps/munmaps a chunk every time the
+# call depth crosses a chunk boundary.  The repository deep-copies matchers/descriptions recursively (copy.deepcopy,
+# make_matching_sequence) and so crosses boundaries thousands of times per case; measured, most of the time then goes
+# to the kernel (far worse on a loaded machine).  A caller frame that reserves a big evaluation stack makes the
+# interpreter allocate one large chunk once, in whose slack all nested frames fit.  Nothing about what is executed changes.
+_roomy.__code__ = _roomy.__code__.replace(co_stacksize=66000)
+
+
 def run_guarded(mod, case, ctx, timeout_s):
     """Run one case under the soft watchdog.  Returns True if it completed."""
     ctx.current_case = case
     signal.setitimer(signal.ITIMER_REAL, timeout_s)
     try:
-        mod.run_case(case, ctx)
+        _roomy(lambda: mod.run_case(case, ctx))
         return True
     except CaseTimeout:
         ctx.count("soft_timeouts")
@@ -224,8 +236,8 @@ def main(argv):
         timeout_s = float(getattr(mod, "CASE_TIMEOUT_S", 60))
         try:
             if hasattr(mod, "setup"):
-                mod.setup(ctx)
-            for case in mod.cases(spec, ctx):
+                _roomy(lambda: mod.setup(ctx))
+            for case in _roomy(lambda: list(mod.cases(spec, ctx))) if getattr(mod, "CASES_EAGER", False) else mod.cases(spec, ctx):
                 run_guarded(mod, case, ctx, timeout_s)
             if hasattr(mod, "teardown"):
                 mod.teardown(ctx)
